@@ -485,6 +485,7 @@ type modSet struct {
 	compAt map[string][]ssa.Value
 	mapAt  map[string][]ssa.Value
 	whole  map[string]bool // component/map type also written through an unknown base
+	loop   *loopInfo       // the loop this set was computed for (nil for calls)
 }
 
 func newModSet() *modSet {
@@ -494,6 +495,7 @@ func newModSet() *modSet {
 
 func (ex *Exec) loopModSet(fr *Frame, li *loopInfo) *modSet {
 	ms := newModSet()
+	ms.loop = li
 	for b := range li.blocks {
 		for _, in := range b.Instrs {
 			ex.instrEffects(fr.fn, in, ms, nil, 0)
@@ -775,6 +777,27 @@ func (ex *Exec) contractEffects(ct *Contract, ms *modSet, callee *ssa.Function, 
 			ms.whole[comp] = true
 			continue
 		}
+		// "param" of map type: the map the argument refers to
+		if id, isId := m.Expr.(EIdent); isId && callee != nil {
+			for i, p := range callee.Params {
+				if p.Name() != id.Name || i >= len(c.Args) {
+					continue
+				}
+				if _, isMap := p.Type().Underlying().(*types.Map); isMap {
+					k := p.Type().Underlying().String()
+					ms.maps[k] = p.Type()
+					if depth == 0 {
+						ms.mapAt[k] = append(ms.mapAt[k], c.Args[i])
+					} else {
+						ms.whole[k] = true
+					}
+					ok = true
+				}
+			}
+			if ok {
+				continue
+			}
+		}
 		// "param.field": a field of the object the argument refers to
 		if sel, isSel := m.Expr.(ESel); isSel && callee != nil && depth == 0 {
 			if id, isId := sel.X.(EIdent); isId {
@@ -923,8 +946,64 @@ func (ex *Exec) havocModSet(fr *Frame, st *State, ms *modSet, tag string) {
 			}
 			continue
 		}
+		if !ms.whole[k] && ms.loop != nil && len(ms.mapAt[k]) > 0 && allLoopFresh(ms.mapAt[k], ms.loop) {
+			// every write of this map type inside the loop goes to a map made inside the loop: maps that existed
+			// when the loop was entered keep their contents
+			al := ex.allocSet(st)
+			mc := ex.mapCompsOf(ms.maps[k])
+			for _, c := range []string{mc.has, mc.val, mc.ln} {
+				old := ex.mapHeap(st, c)
+				nw := vc.fresh("Mx_"+tag, ex.compSort(c))
+				st.heap[c] = nw
+				ex.assume(st, fmt.Sprintf("(forall ((qr! Int)) (! (=> (select %s qr!) (= (select %s qr!) (select %s qr!))) :pattern ((select %s qr!))))", al, nw, old, nw))
+			}
+			continue
+		}
 		ex.havocMapType(st, ms.maps[k], tag)
 	}
+}
+
+// allLoopFresh: is every one of these map values made inside the loop? Either a make in a loop block, or a load of a
+// local that is declared inside the loop and only ever assigned such makes.
+func allLoopFresh(bases []ssa.Value, li *loopInfo) bool {
+	for _, b := range bases {
+		if !loopFresh(b, li) {
+			return false
+		}
+	}
+	return true
+}
+
+func loopFresh(b ssa.Value, li *loopInfo) bool {
+	switch x := b.(type) {
+	case *ssa.MakeMap:
+		return li.blocks[x.Block()]
+	case *ssa.UnOp:
+		if x.Op != token.MUL {
+			return false
+		}
+		a, ok := x.X.(*ssa.Alloc)
+		if !ok || a.Heap || !li.blocks[a.Block()] || a.Referrers() == nil {
+			return false
+		}
+		for _, r := range *a.Referrers() {
+			switch y := r.(type) {
+			case *ssa.Store:
+				if y.Addr != a {
+					return false // the address itself is stored somewhere
+				}
+				mk, isMake := y.Val.(*ssa.MakeMap)
+				if !isMake || !li.blocks[mk.Block()] {
+					return false
+				}
+			case *ssa.UnOp, *ssa.DebugRef:
+			default:
+				return false
+			}
+		}
+		return true
+	}
+	return false
 }
 
 // isHeapAlloc: does this Alloc denote a heap object addressed by reference (vs. a local cell)?
